@@ -429,6 +429,119 @@ fn siblings(prop: &mut Property, ctx: &Ctx) {
     let _ = (b64(&[]), RngKind::AwsLc);
 }
 
+/// specification-conforming tokens whose footer bytes are not what the footer *type* would write (JSON with spaces,
+/// extra members, another member order; padded text for a trimming footer type): the footer on the wire is what is
+/// authenticated, so they are accepted through a typed footer exactly as through a byte footer
+fn typed_footer_of_spec_tokens<V: Full>(prop: &mut Property) {
+    use paseto_core::tokens::SealedToken;
+    use paseto_core::validation::NoValidation;
+    use paseto_core::version::{Local, Public};
+    use paseto_json::Json;
+    use crate::payload::{Raw, TrimFooter};
+    #[derive(serde::Serialize, serde::Deserialize, PartialEq, Debug, Clone)]
+    struct Kid {
+        kid: String,
+    }
+    let name = V::NAME;
+    let footers: Vec<&'static [u8]> = vec![br#"{"kid":"k1"}"#, br#"{ "kid" : "k1" }"#, b"{\"kid\":\"k1\"}\n", br#"{"kid":"k1","zzz":[1,2]}"#, br#"{"aaa":null,"kid":"k1"}"#, br#"{"kid":"k\u0031"}"#];
+    let n = footers.len() as u64 * 2;
+    prop.subs.push(
+        Sub::new(format!("{name}/typed-footer-of-spec-token"), n, "{local, public} x 6 JSON footers that all decode to {kid: \"k1\"} (canonical, spaced, trailing newline, extra member after / before, escaped character): the token built by the reference model / signed by the independent signer is accepted when parsed with Json<struct>, with Json<Value> and with a trimming byte footer type, and displays as the same string", move |idx, describe| {
+            let local = idx % 2 == 0;
+            let ft = footers[(idx / 2) as usize];
+            let mut o = Outcome::new();
+            if describe {
+                o.sample = Some(json!({"backend": name, "local": local, "footer": String::from_utf8_lossy(ft)}));
+            }
+            let ks = keys::keyset::<V>(false, 0);
+            let msg = b"typed footer, conforming token".to_vec();
+            let nv = NoValidation::<Raw>::dangerous_no_validation();
+            let base = format!("{name}/typed-footer-of-spec-token");
+            o.evals = 0;
+            if local {
+                let kb = &ks.locals[2].bytes;
+                let key: [u8; 32] = kb[..].try_into().unwrap();
+                let nonce = vec![0x5au8; V::nonce_len()];
+                let tok = join_token(&format!("v{}.local.", V::VER), &spec::local_encrypt(V::VER, "", &key, &nonce, &msg, ft, b""), Some(ft));
+                let k = keys::local::<V>(kb);
+                for form in 0..3 {
+                    o.evals += 1;
+                    let r = subject(|| -> Result<(Vec<u8>, String), paseto_core::PasetoError> {
+                        Ok(match form {
+                            0 => {
+                                let t: SealedToken<V, Local, Raw, Json<Kid>> = tok.parse()?;
+                                let shown = t.to_string();
+                                (t.decrypt(&k, &nv)?.claims.0, shown)
+                            }
+                            1 => {
+                                let t: SealedToken<V, Local, Raw, Json<serde_json::Value>> = tok.parse()?;
+                                let shown = t.to_string();
+                                (t.decrypt(&k, &nv)?.claims.0, shown)
+                            }
+                            _ => {
+                                let t: SealedToken<V, Local, Raw, TrimFooter> = tok.parse()?;
+                                let shown = t.to_string();
+                                (t.decrypt(&k, &nv)?.claims.0, shown)
+                            }
+                        })
+                    });
+                    match r {
+                        Ok(Ok((c, shown))) if c == msg && shown == tok => o.class("conforming-token-accepted"),
+                        Ok(Ok((c, shown))) => o.violate(format!("{base}/changed"), format!("footer form {form}: claims {} / displayed token {}", if c == msg { "equal" } else { "differ" }, if shown == tok { "equal" } else { "differs from the parsed string" }), json!({"token": tok, "displayed": shown})),
+                        other => o.violate(format!("{base}/rejected"), format!("a specification-conforming token is rejected when its footer is parsed as type #{form}: {:?}", other.map(|r| r.map(|_| ()).map_err(|e| err_kind(&e)))), json!({"token": tok})),
+                    }
+                }
+            } else {
+                let s = &ks.secrets[0];
+                let sk = keys::secret::<V>(&s.bytes);
+                let pk = sk.public_key();
+                let pkb = keys::key_bytes(&pk);
+                let pre = spec::public_preauth(V::VER, "", &pkb, &msg, ft, b"");
+                let sig: Option<Vec<u8>> = match V::VER {
+                    1 => spec::rsa_pss_sign_independent(&s.bytes, &pre),
+                    3 => spec::p384_sign_independent(&s.bytes, &pre),
+                    _ => Some(spec::ed25519_sign(&s.bytes, &pre).to_vec()),
+                };
+                let Some(sig) = sig else {
+                    o.class("independent-signer-unavailable");
+                    return o;
+                };
+                let tok = join_token(&format!("v{}.public.", V::VER), &[&msg[..], &sig[..]].concat(), Some(ft));
+                for form in 0..3 {
+                    o.evals += 1;
+                    let r = subject(|| -> Result<(Vec<u8>, String), paseto_core::PasetoError> {
+                        Ok(match form {
+                            0 => {
+                                let t: SealedToken<V, Public, Raw, Json<Kid>> = tok.parse()?;
+                                let shown = t.to_string();
+                                (t.verify(&pk, &nv)?.claims.0, shown)
+                            }
+                            1 => {
+                                let t: SealedToken<V, Public, Raw, Json<serde_json::Value>> = tok.parse()?;
+                                let shown = t.to_string();
+                                (t.verify(&pk, &nv)?.claims.0, shown)
+                            }
+                            _ => {
+                                let t: SealedToken<V, Public, Raw, TrimFooter> = tok.parse()?;
+                                let shown = t.to_string();
+                                (t.verify(&pk, &nv)?.claims.0, shown)
+                            }
+                        })
+                    });
+                    match r {
+                        Ok(Ok((c, shown))) if c == msg && shown == tok => o.class("conforming-token-accepted"),
+                        Ok(Ok((c, shown))) => o.violate(format!("{base}/changed"), format!("footer form {form}: claims {} / displayed token {}", if c == msg { "equal" } else { "differ" }, if shown == tok { "equal" } else { "differs from the parsed string" }), json!({"token": tok, "displayed": shown})),
+                        other => o.violate_env(format!("{base}/rejected"), format!("a specification-conforming token is rejected when its footer is parsed as type #{form}: {:?}", other.map(|r| r.map(|_| ()).map_err(|e| err_kind(&e)))), json!({"token": tok})),
+                    }
+                }
+            }
+            o.nontrivial = o.evals;
+            o
+        })
+        .witness(&["conforming-token-accepted"]),
+    );
+}
+
 pub fn build(ctx: &Ctx) -> Property {
     let mut p = Property::new("C03", "exploration");
     p.subs.push(specvec::sub(specvec::Cats::TOKENS));
@@ -459,6 +572,12 @@ pub fn build(ctx: &Ctx) -> Property {
     seq!(backends::V3L);
     seq!(backends::V4);
     seq!(backends::V4S);
+    typed_footer_of_spec_tokens::<backends::V1>(&mut p);
+    typed_footer_of_spec_tokens::<backends::V2>(&mut p);
+    typed_footer_of_spec_tokens::<backends::V3>(&mut p);
+    typed_footer_of_spec_tokens::<backends::V3L>(&mut p);
+    typed_footer_of_spec_tokens::<backends::V4>(&mut p);
+    typed_footer_of_spec_tokens::<backends::V4S>(&mut p);
     p.subs.push(ecdsa_nonce_sub(ctx));
     siblings(&mut p, ctx);
     p.assume("reference models are written from the specifications with RustCrypto primitives (AES-256-CTR as a full 128-bit big-endian counter) and reproduce every official vector; independent verifiers / signers: aws-lc-rs (RSA-PSS, ECDSA, Ed25519) and RustCrypto p384");
